@@ -122,7 +122,12 @@ func (w *World) iterOp(t []string) string {
 		it = c.IterateDescend(tgt, wv)
 	}
 	var out []string
-	for _, ch := range t[6] + "C" {
+	// C18: "after Close() OR EXHAUSTION ... the producer goroutine exits and releases the version
+	// it pinned".  The observation always ends with the final "C" of the line protocol, but when
+	// the iterator is exhausted (its last Next returned false and no Close followed) the real
+	// Close() call is NOT made: the checks below must then hold without it.
+	exhausted := false
+	for _, ch := range t[6] {
 		switch ch {
 		case 'N':
 			if it.Next() {
@@ -134,12 +139,18 @@ func (w *World) iterOp(t []string) string {
 				out = append(out, s)
 			} else {
 				out = append(out, "F")
+				exhausted = true
 			}
 		case 'C':
 			it.Close()
 			out = append(out, "C")
+			exhausted = false
 		}
 	}
+	if !exhausted {
+		it.Close()
+	}
+	out = append(out, "C")
 	// the producer goroutine must exit and release the version it pinned
 	deadline := time.Now().Add(2 * time.Second)
 	for time.Now().Before(deadline) {
